@@ -42,13 +42,38 @@ def _param_ids(f):
     return out
 
 
+def _guard_as_branch(b, i):
+    """`if C { ..; return A; } rest..; tail` (statement i of block b, no else) read as `if C { ..; A } else { rest..; tail }`; a negated guard `if !C { return B } A` as
+    `if C { A } else { B }`.  None when statement i is not such a guard."""
+    st = b["stmts"][i]
+    if st.get("k") != "if" or st.get("e") is not None or b.get("e") is None:
+        return None
+    t = st.get("t") or {}
+    ts = t.get("stmts") or []
+    if t.get("k") != "block" or t.get("e") is not None or not ts or ts[-1].get("k") != "ret" or ts[-1].get("e") is None:
+        return None
+    then_b = {"k": "block", "stmts": ts[:-1], "e": ts[-1]["e"], "ln": t.get("ln"), "s": t.get("s")}
+    else_b = {"k": "block", "stmts": b["stmts"][i + 1:], "e": b["e"], "ln": b["e"].get("ln"), "s": b["e"].get("s")}
+    c = st["c"]
+    while c.get("k") == "paren" and c.get("e") is not None:
+        c = c["e"]
+    if c.get("k") == "unary" and c.get("op") == "!":
+        c, then_b, else_b = c["e"], else_b, then_b
+    return {"k": "if", "c": c, "t": then_b, "e": else_b, "ln": st.get("ln"), "s": st.get("s"), "ty": b["e"].get("ty")}
+
+
 def _top_if(f):
-    """The fn-level `if <cond> { A } else { B }` that is the fn's value (or first statement)."""
+    """The fn-level `if <cond> { A } else { B }` that is the fn's value (or first statement); an early-return guard is read as that if/else."""
     b = f.body
     while b is not None and b.get("k") == "block":
         cands = [s for s in b.get("stmts", []) if s.get("k") == "if"]
         if b.get("e") is not None and b["e"].get("k") == "if":
             return b["e"]
+        if cands:
+            i = b["stmts"].index(cands[0])
+            g = _guard_as_branch(b, i)
+            if g is not None and i == 0:
+                return g
         if b.get("e") is not None and b["e"].get("k") == "block":
             b = b["e"]
             continue
@@ -345,8 +370,10 @@ def rule_r4(facts, rep, rid="C10-R4"):
     rep.saw_fn(t)
     txt = fb.show_canon(t, t.body, maxdepth=30).replace(" ", "")
     key = t.def_ + "|sections-outside-lists"
-    if ("if(self.is_section()&&self.id_eq(P1)){returntrue}" in txt or "if(self.id_eq(P1)&&self.is_section()){returntrue}" in txt) and "ifself.is_list(){returnfalse}" in txt \
-            and txt.rstrip("}").endswith("self.children.iter().any(|c0|c0.is_header(P1))"):
+    body_ = txt.rstrip("}").rstrip(";")
+    below = ("ifself.is_list(){returnfalse}" in txt and body_.endswith("self.children.iter().any(|c0|c0.is_header(P1))")) or \
+        body_.endswith("(!self.is_list()&&self.children.iter().any(|c0|c0.is_header(P1)))")      # the list test folded into the tail: `!is_list() && children.any(..)`
+    if ("if(self.is_section()&&self.id_eq(P1)){returntrue}" in txt or "if(self.id_eq(P1)&&self.is_section()){returntrue}" in txt) and below:
         rep.ok(rid, key, "true for a section with that id, never below a list", t.loc)
     else:
         rep.violation(rid, key, "Tree::is_header no longer selects exactly the sections that are not inside a list", t.loc)
